@@ -60,7 +60,7 @@ def main():
                 cases.append(("seeded/" + d, os.path.join(sd, d, "patch.diff"), pid))
     results = []
     for name, patch, pid in cases:
-        if only and only not in name:
+        if only and not any(o in name for o in only.split(",")):
             continue
         t0 = time.time()
         r = sh("git", "-C", target, "apply", "--whitespace=nowarn", patch)
